@@ -384,7 +384,7 @@ v("35c-map-group-registered-before-dup-check", [(P, "        if group_name in se
 v("35d-unlock-only-when-not-full", [(P, "        if self._locked:\n            self._locked = False\n", "        if self._locked and not self.is_full:\n            self._locked = False\n")], {"C09": "R09.4"})
 v("35e-lock-toggles", [(P, "        if not self._locked:\n            self._locked = True\n            log.info(\"%s is locked!\", str(self))\n", "        self._locked = not self._locked\n")], {"C09": "R09.4"})
 v("35f-simple-init-stores-before-check", [(P, "        if not iscoroutinefunction(func):\n            raise NotCoroutineFunction(func)\n        self._func: AnyCoroutineFunc = func\n", "        self._func: AnyCoroutineFunc = func\n        if not iscoroutinefunction(func):\n            raise NotCoroutineFunction(func)\n")], {"C09": "R09.1i"})
-v("35g-map-touches-iter-early", [(P, "        self._check_start(function=func)\n        if num_concurrent < 1:", "        arg_iter = iter(arg_iter)\n        self._check_start(function=func)\n        if num_concurrent < 1:")], {"C09": "any", "C05": "R05.2"})
+v("35g-map-touches-iter-early", [(P, "        self._check_start(function=func)\n        if num_concurrent < 1:", "        arg_iter = iter(arg_iter)\n        self._check_start(function=func)\n        if num_concurrent < 1:")], {"C09": "R09.1", "C05": "R05.2"})
 v("P-lock-unconditional-store", [(P, "        if not self._locked:\n            self._locked = True\n            log.info(\"%s is locked!\", str(self))\n", "        self._locked = True\n")], {"C09": "ok", "C08": "ok"})
 
 # ---------------------------------------------------------------- C10 / C11
@@ -394,7 +394,7 @@ v("36c-generate-name-checks-wrong-table", [(P, "            if name not in self.
 v("37-map-returns-other-name", [(P, "            0,\n            end_callback=end_callback,\n            cancel_callback=cancel_callback,\n        )\n        return group_name", "            0,\n            end_callback=end_callback,\n            cancel_callback=cancel_callback,\n        )\n        return f\"map-{group_name}\"")], {"C10": "any"})
 v("37b-apply-returns-other-name", [(P, "                    cancel_callback=cancel_callback,\n                )\n            )\n        )\n        return group_name\n\n    @staticmethod", "                    cancel_callback=cancel_callback,\n                )\n            )\n        )\n        return str(func.__name__)\n\n    @staticmethod")], {"C10": "R10.2r"})
 v("37c-start_task-default-group", [(P, "        group_reg = self._task_groups.setdefault(\n            group_name, TaskGroupRegister()\n        )", "        group_reg = self._task_groups.setdefault(\n            DEFAULT_TASK_GROUP, TaskGroupRegister()\n        )")], {"C10": "R10.1"})
-v("37d-spawner-passes-no-group", [(P, "                await self._start_task(\n                    coroutine,\n                    group_name=group_name,\n                    end_callback=end_callback,", "                await self._start_task(\n                    coroutine,\n                    end_callback=end_callback,")], {"C10": "any", "C04": "R04.1s"})
+v("37d-spawner-passes-no-group", [(P, "                await self._start_task(\n                    coroutine,\n                    group_name=group_name,\n                    end_callback=end_callback,", "                await self._start_task(\n                    coroutine,\n                    end_callback=end_callback,")], {"C10": "R10.2s", "C04": "R04.1s"})
 v("37e-start-counter-not-incremented", [(P, "        self._start_calls += 1\n", "")], {"C10": "R10.3"})
 v("37f-get_group_ids-returns-register", [(P, "        ids: Set[int] = set()\n        for name in group_names:\n            try:\n                ids.update(self._task_groups[name])", "        ids: Set[int] = set()\n        for name in group_names:\n            try:\n                ids = self._task_groups[name]")], {"C10": "any"})
 v("37g-task-added-to-two-registers", [(P, "            group_reg.add(task_id)\n", "            group_reg.add(task_id)\n            self._task_groups.setdefault(DEFAULT_TASK_GROUP, TaskGroupRegister()).add(task_id)\n")], {"C10": "R10.1"})
@@ -413,5 +413,38 @@ for _v in V:
     if _v["name"] in ("P2-rename-locals", "P6-increment-after-create"):
         _v["expect"].update({"C10": "ok", "C11": "ok"})
         _v["props"] = list(_v["expect"])
+
+# ---------------------------------------------------------------- C12 / C13 / C14 / C15
+v("12-return-in-finally", [(P, "        finally:\n            await self._task_ending(task_id, custom_callback=end_callback)\n", "        finally:\n            await self._task_ending(task_id, custom_callback=end_callback)\n            return None\n")], {"C12": "R12.2"})
+v("12h-wrapper-catches-exception", [(P, WRAP_OLD, WRAP_OLD.replace("        finally:", "        except Exception as e:\n            log.exception(str(e))\n            return None\n        finally:"))], {"C12": "R12.2"})
+v("12i-ending-raises-own-error", [(P, "        self._enough_room.release()\n        log.info(\"Ended", "        self._enough_room.release()\n        if task_id < 0:\n            raise RuntimeError(task_id)\n        log.info(\"Ended")], {"C12": "R12.5"})
+v("12j-callback-before-release", [(P, "        self._enough_room.release()\n        log.info(\"Ended %s\", self._task_name(task_id))\n        await execute_optional(custom_callback, args=(task_id,))", "        log.info(\"Ended %s\", self._task_name(task_id))\n        await execute_optional(custom_callback, args=(task_id,))\n        self._enough_room.release()")], {"C12": "R12.1", "C02": "viol", "C01": "viol"})
+v("40-flush-return_exceptions-false", [(P, "        await gather(\n            *finished.values(),\n            return_exceptions=return_exceptions,\n        )", "        await gather(\n            *finished.values(),\n            return_exceptions=False,\n        )")], {"C12": "R12.4", "C13": "R13.3"})
+v("40b-gather_and_close-drops-return_exceptions", [(P, "            *self._tasks_running.values(),\n            return_exceptions=return_exceptions,\n        )", "            *self._tasks_running.values(),\n        )")], {"C12": "R12.4"})
+v("40c-execute_optional-swallows", [("internals/helpers.py", "    if iscoroutinefunction(function):\n        return await cast(Awaitable[_R], function(*args, **kwargs))\n    return cast(_R, function(*args, **kwargs))", "    try:\n        if iscoroutinefunction(function):\n            return await cast(Awaitable[_R], function(*args, **kwargs))\n        return cast(_R, function(*args, **kwargs))\n    except Exception:\n        return None")], {"C12": "R12.2"})
+v("42-flush-also-cancels-running", [(P, "        for task_id in finished:\n            self._tasks_ended.pop(task_id, None)\n", "        for task in list(self._tasks_running.values()):\n            task.cancel()\n        for task_id in finished:\n            self._tasks_ended.pop(task_id, None)\n")], {"C13": "R13.2"})
+v("42b-flush-forgets-only-ended", [(P, "            self._tasks_ended.pop(task_id, None)\n            self._tasks_cancelled.pop(task_id, None)\n", "            self._tasks_ended.pop(task_id, None)\n")], {"C13": "R13.5"})
+v("42c-flush-snapshot-after-gather", [(P, "        finished = {**self._tasks_ended, **self._tasks_cancelled}\n        await gather(\n            *finished.values(),\n            return_exceptions=return_exceptions,\n        )\n", "        await gather(\n            *self._tasks_ended.values(),\n            *self._tasks_cancelled.values(),\n            return_exceptions=return_exceptions,\n        )\n        finished = {**self._tasks_ended, **self._tasks_cancelled}\n")], {"C13": "R13.1"})
+v("42d-flush-early-return-when-locked", [(P, "        self._meta_tasks_cancelled.clear()\n        # Only the tasks gathered here", "        self._meta_tasks_cancelled.clear()\n        if self._locked:\n            return\n        # Only the tasks gathered here")], {"C13": "R13.5"})
+v("43-stop-without-reversed", [(P, "        for i, task_id in enumerate(reversed(self._tasks_running)):", "        for i, task_id in enumerate(self._tasks_running):")], {"C14": "R14.1"})
+v("44-stop-append-before-bound", [(P, "            if i >= num:\n                # We got the desired number of task IDs,\n                # there may well be more tasks left to keep running\n                break\n            ids.append(task_id)\n", "            ids.append(task_id)\n            if i >= num:\n                break\n")], {"C14": "R14.1"})
+v("44b-stop-bound-gt", [(P, "            if i >= num:\n", "            if i > num:\n")], {"C14": "R14.1"})
+v("44c-stop-returns-sorted", [(P, "        self.cancel(*ids)\n        return ids\n", "        self.cancel(*ids)\n        return sorted(ids)\n")], {"C14": "R14.1"})
+v("44d-stop_all-fixed-number", [(P, "        return self.stop(self.num_running)\n", "        return self.stop(self._num_started)\n")], {"C14": "any"})
+v("44e-stop-cancels-individually", [(P, "        self.cancel(*ids)\n        return ids\n", "        for task_id in ids:\n            self.cancel(task_id)\n        return ids\n")], {"C14": "R14.1"})
+v("P-stop-islice", [(P, """        ids = []
+        for i, task_id in enumerate(reversed(self._tasks_running)):
+            if i >= num:
+                # We got the desired number of task IDs,
+                # there may well be more tasks left to keep running
+                break
+            ids.append(task_id)
+""", """        ids = list(reversed(self._tasks_running))[: max(num, 0)]
+""")], {"C14": "ok"})
+v("45-setter-validation-dropped", [(P, "        if value < 0:\n            raise ValueError(\"Pool size can not be less than 0\")  # noqa: TRY003\n", "")], {"C15": "viol", "C09": "R09.3"})
+v("45b-getter-returns-running-count", [(P, "        return self._enough_room._value\n", "        return len(self._tasks_running)\n")], {"C15": "viol"})
+v("45c-setter-le-zero", [(P, "        if value < 0:\n", "        if value <= 0:\n")], {"C15": "viol"})
+v("P-pool-size-fixed", [(P, "        return self._enough_room._value\n", "        return self._pool_size\n"),
+   (P, "        self._enough_room._value = value\n", "        delta = value - getattr(self, '_pool_size', 0)\n        self._pool_size = value\n        self._enough_room._value += delta\n        self._enough_room._wake_up_next()\n")], {"C15": "any"})
 
 VARIANTS = V
